@@ -23,7 +23,8 @@ func init() {
 		Rule: "E-twin: PRNG programs of 150-800 primitive syscalls (creat/write/truncate/chmod/utimes/unlink/rmdir/rm -r/rename/mkdir/link/symlink/hold-unlink-release) over 2-6 watched directories, " +
 			"watched files, an unwatched directory and a symlinked directory, interleaved with Add/Remove under every spelling; a raw inotify shadow drained after every syscall gives the exact kernel notification list, " +
 			"a reference translator the expected events; at each sentinel barrier an expected event with no received counterpart is a violation. Consumer pauses make reads return multi-event batches. " +
-			"Plus a forced kernel-queue overflow: the received stream must be a gap-free prefix, ErrEventOverflow must be announced, later events must flow. " +
+			"Directed cases: a watched path replaced while its old inode lives on, re-added, then changed; two directly watched files flooded with >4096 name-less notifications (a read of exactly 64 KiB). " +
+			"Plus a forced kernel-queue overflow (with probes queued behind the still unread overflow marker): the received stream must be a gap-free prefix, ErrEventOverflow must be announced, later events must flow. " +
 			"distinct_nontrivial = distinct programs (by case seed, op kinds used) that delivered >=1 compared event and used >=2 op kinds",
 		Assumptions: []string{"a shadow inotify instance attached to the same inodes receives the same notifications in the same order (kernel fsnotify groups)", "strict mode: the reader has caught up (barrier) before every Add/Remove"},
 		Batches:     func(t string) int { return map[string]int{"quick": 16, "thorough": 64}[t] },
